@@ -199,7 +199,9 @@ Inductive op :=
 | OPause (name sender : Z)
 | OEdit (a : edit_args)
 | ODirect (name sender kind : Z)      (* a service Msg{Pause,Start,Kill,Update}RequestContext aimed at the feed's context *)
-| OSvc (evs : list sev).              (* a respond-service transaction or an end-block of the service module *)
+| OSvc (evs : list sev)               (* a respond-service transaction or an end-block of the service module *)
+| OPrice (name code data : Z).        (* keeper.ModuleServiceRequest (the oracle price service) asked for feed [name];
+                                         code, data: what the implementation answered, used by Check.v only *)
 
 Definition uint64_of (x : Z) : Z := x mod 18446744073709551616.
 
@@ -395,6 +397,20 @@ Fixpoint do_sevs (s : state) (now : Z) (evs : list sev) : outcome * state :=
       end
   end.
 
+(** keeper.ModuleServiceRequest: the newest value of the feed, unless it is older than 5 minutes of
+    BLOCK time (since "fix: oracle price service expires feed values by block time, not host
+    clock").  Answer: (result code, data * 10^8 or 0): 400 feed not found, 401 no value, 402 all
+    values expired, 200 with the rate. *)
+Definition PRICE_TTL : Z := 300.
+Definition price_answer (feed_exists : bool) (vals : list fval) (now : Z) : Z * Z :=
+  if negb feed_exists then (400, 0) else
+  match vals with
+  | [] => (401, 0)
+  | (d, ts) :: _ => if PRICE_TTL <? now - ts then (402, 0) else (200, d)
+  end.
+Definition price_request (s : state) (now name : Z) : Z * Z :=
+  price_answer (has name (feeds s)) (query_values s name) now.
+
 Definition step := (Z * op)%type.                     (* block time (unix seconds), operation *)
 
 Definition exec (s : state) (st : step) : outcome * state :=
@@ -406,6 +422,7 @@ Definition exec (s : state) (st : step) : outcome * state :=
   | OEdit a => do_edit s a
   | ODirect _ _ _ => (Rej, s)       (* service msg server: CheckAuthority(..., checkModule = true) *)
   | OSvc evs => match do_sevs s now evs with (Ok, s') => (Ok, s') | (o', _) => (o', s) end
+  | OPrice _ _ _ => (Ok, s)         (* a read *)
   end.
 
 Definition exec_state (s : state) (st : step) : state := snd (exec s st).
